@@ -30,6 +30,7 @@ type dagCfg struct {
 	CyclePct  int
 	Buffered  int // percent
 	TwoObjPct int
+	Templates bool // sometimes start from a hand-shaped sub-graph (skip siblings, diamond, star)
 }
 
 func genDagCase(t *rapid.T, cfg dagCfg) *DagCase {
@@ -45,16 +46,57 @@ func genDagCase(t *rapid.T, cfg dagCfg) *DagCase {
 			}
 		}
 	}
+	forced := map[int]string{} // outcomes pinned by a template
+	if cfg.Templates && n >= 5 && chance(t, "template", 35) {
+		// tasks perm[0..] play the roles; edges are replaced by the template's plus a few random extra ones among the rest
+		for i := range deps {
+			deps[i] = nil
+		}
+		role := func(k int) int { return perm[k] }
+		switch rapid.IntRange(0, 2).Draw(t, "templatekind") {
+		case 0: // two leaves under a parent under a grandparent, plus independent work: top -> p -> {c1, c2}; after -> slow
+			c1, c2, pp, top, slow := role(0), role(1), role(2), role(3), role(4)
+			deps[pp] = []int{c1, c2}
+			deps[top] = []int{pp}
+			if n >= 6 {
+				deps[role(5)] = []int{slow}
+			}
+			leaf := rapid.SampledFrom([]string{"skip", "skip", "err", "ok"}).Draw(t, "tleaf")
+			forced[c1], forced[c2] = leaf, rapid.SampledFrom([]string{"skip", "skip", "err", "ok"}).Draw(t, "tleaf2")
+		case 1: // diamond with a tail: d -> {b, c} -> a ; e -> d
+			a, b, cc, d, e := role(0), role(1), role(2), role(3), role(4)
+			deps[b], deps[cc] = []int{a}, []int{a}
+			deps[d] = []int{b, cc}
+			deps[e] = []int{d}
+			forced[rapid.SampledFrom([]int{a, b, cc}).Draw(t, "tfail")] = rapid.SampledFrom([]string{"skip", "err"}).Draw(t, "tfailkind")
+		case 2: // star: one hub with many dependents, and many independent leaves
+			hub := role(0)
+			for k := 1; k < n; k++ {
+				if k%2 == 1 {
+					deps[role(k)] = []int{hub}
+				}
+			}
+			forced[hub] = rapid.SampledFrom([]string{"err", "skip", "ok"}).Draw(t, "thub")
+		}
+	}
 	c := &DagCase{N: n, CancelAfter: -1}
 	c.Mode = rapid.SampledFrom(cfg.Modes).Draw(t, "mode")
 	if c.Mode == "max" {
 		c.Max = rapid.IntRange(1, n+1).Draw(t, "max")
+		if chance(t, "smallmax", 40) {
+			c.Max = 1 + c.Max%2
+		}
 	}
 	retries := make([]int, n)
 	c.Outcomes = make([][]string, n)
 	for i := 0; i < n; i++ {
 		if chance(t, "hasretry", cfg.RetryPct) {
 			retries[i] = rapid.IntRange(1, 2).Draw(t, "retries")
+		}
+		if f, ok := forced[i]; ok {
+			retries[i] = 0
+			c.Outcomes[i] = []string{f}
+			continue
 		}
 		for a := 0; a <= retries[i]; a++ {
 			errPct := cfg.ErrPct
@@ -323,7 +365,7 @@ var allModes = []string{"parallel", "parallel", "max", "max", "serial"}
 var propC13 = &dprop{ID: "C13", Sub: "order", Tag: "C13",
 	Rule: "rapid-driven controlled scheduler: random DAG (1-8 tasks; edges along a random permutation) built through a shuffled construction script x mode {parallel, SetMaxParallel(m), serial} x per-attempt outcomes {nil, error, ErrorSkipParents} x retries 0-2 x completion order (which in-flight task returns next is a generated choice) x settle points; entry invariants checked at every task entry; non-trivial = graph has an edge and (>=2 tasks were in flight at once or a retry happened); distinct by (script, mode, full enter/finish history)",
 	Gen: func(t *rapid.T) *DagCase {
-		return genDagCase(t, dagCfg{MaxN: 8, Density: []int{15, 30, 50, 80}, ErrPct: 8, SkipPct: 4, RetryPct: 25, Modes: allModes, CancelPct: 3, ReAdd: 0, Buffered: 10})
+		return genDagCase(t, dagCfg{MaxN: 8, Density: []int{15, 30, 50, 80}, ErrPct: 8, SkipPct: 4, RetryPct: 25, Modes: allModes, CancelPct: 3, ReAdd: 0, Buffered: 10, Templates: true})
 	},
 	NT: func(c *DagCase, r *Result) bool { return hasEdge(r.Model) && (r.Overlap || r.Retried) },
 }
@@ -331,7 +373,13 @@ var propC13 = &dprop{ID: "C13", Sub: "order", Tag: "C13",
 var propC14 = &dprop{ID: "C14", Sub: "faults", Tag: "C14",
 	Rule: "same controlled scheduler with fault-heavy cases: outcomes error 25% / ErrorSkipParents 15%, retries, cancel() at a generated point in 35% of cases; entry invariants (no dependent of a failed/skipping task, nothing not-yet-ready after cancel() returned) + exact check of Run's result (errors.As *Errors, one entry wrapping each failed task's error, exactly one ErrorTaskSkipped entry per never-started task not covered by ErrorSkipParents, none for those covered, nil iff nothing failed and no cancellation); non-trivial = a failure, skip or cancellation occurred in a graph with an edge; distinct by (script, mode, history)",
 	Gen: func(t *rapid.T) *DagCase {
-		return genDagCase(t, dagCfg{MaxN: 8, Density: []int{20, 40, 60}, ErrPct: 25, SkipPct: 15, RetryPct: 20, Modes: allModes, CancelPct: 35, ReAdd: 0, Buffered: 5})
+		switch rapid.IntRange(0, 3).Draw(t, "variant") {
+		case 0: // skip-heavy: several ErrorSkipParents in one run (siblings sharing dependents), few plain failures
+			return genDagCase(t, dagCfg{MaxN: 8, Density: []int{15, 30, 50}, ErrPct: 6, SkipPct: 35, RetryPct: 10, Modes: allModes, CancelPct: 10, Buffered: 5, Templates: true})
+		case 1: // wide graphs under a small limit: failures while other tasks are queued for a slot
+			return genDagCase(t, dagCfg{MaxN: 8, Density: []int{0, 10, 25}, ErrPct: 20, SkipPct: 10, RetryPct: 15, Modes: []string{"max", "max", "serial"}, CancelPct: 25, Buffered: 5})
+		}
+		return genDagCase(t, dagCfg{MaxN: 8, Density: []int{20, 40, 60}, ErrPct: 25, SkipPct: 15, RetryPct: 20, Modes: allModes, CancelPct: 35, ReAdd: 0, Buffered: 5, Templates: true})
 	},
 	NT: func(c *DagCase, r *Result) bool {
 		return hasEdge(r.Model) && (r.FailedSeen || r.SkipSeen || r.Cancelled)
@@ -341,7 +389,7 @@ var propC14 = &dprop{ID: "C14", Sub: "faults", Tag: "C14",
 var propC15 = &dprop{ID: "C15", Sub: "bound", Tag: "C15",
 	Rule: "same controlled scheduler with wide graphs (edge density 0-30%) x SetMaxParallel(m) for m in 1..n+1 / serial mode x buffered output in half of the cases (each attempt writes a fragment to dag.Stdout before blocking and one to dag.Stderr after its release, so fragments of concurrently running tasks interleave unless buffered per attempt); at every entry the number of executing task functions must not exceed the limit; the sink must hold whole per-attempt blocks; non-trivial = the limit was binding (more ready tasks than slots) or >=2 tasks wrote concurrently; distinct by (script, mode, limit, history)",
 	Gen: func(t *rapid.T) *DagCase {
-		return genDagCase(t, dagCfg{MaxN: 8, Density: []int{0, 10, 30}, ErrPct: 5, SkipPct: 2, RetryPct: 15, Modes: []string{"max", "max", "max", "serial", "parallel"}, CancelPct: 0, Buffered: 50})
+		return genDagCase(t, dagCfg{MaxN: 8, Density: []int{0, 10, 30}, ErrPct: 5, SkipPct: 2, RetryPct: 15, Modes: []string{"max", "max", "max", "serial", "parallel"}, CancelPct: 15, Buffered: 50})
 	},
 	NT: func(c *DagCase, r *Result) bool { return r.BoundBinding || (c.Buffered && r.Overlap) },
 }
@@ -349,6 +397,12 @@ var propC15 = &dprop{ID: "C15", Sub: "bound", Tag: "C15",
 var propC16 = &dprop{ID: "C16", Sub: "histories", Tag: "C16",
 	Rule: "same controlled scheduler over graph-CONSTRUCTION histories: shuffled AddTask/TaskDependsOn/TaskRetries scripts with up to 3 re-adds of already known tasks at any position (same or second Task object), duplicate edges (12%), planted self edges / back edges (12%); termination within a bounded wait once everything was released, work conservation (the driver waits until exactly min(capacity, running+ready) task functions are in flight, a ready task never started shows as a stall), cycle rejection before any task starts (ErrorGraphHasCycle when the definition is otherwise error-free), DepthFirstSort validity; non-trivial = script repeats a call / plants a cycle, or a quiescent point with spare capacity was reached; distinct by (script, mode, history)",
 	Gen: func(t *rapid.T) *DagCase {
+		switch rapid.IntRange(0, 4).Draw(t, "variant") {
+		case 0: // termination / work conservation when several tasks return ErrorSkipParents (bookkeeping of "all done")
+			return genDagCase(t, dagCfg{MaxN: 8, Density: []int{10, 25, 40}, ErrPct: 2, SkipPct: 35, RetryPct: 5, Modes: allModes, CancelPct: 0, ReAdd: 1, TwoObjPct: 30, Templates: true})
+		case 1: // termination after failures / cancellation with tasks queued behind a small limit (slots, result channel)
+			return genDagCase(t, dagCfg{MaxN: 8, Density: []int{0, 10, 25}, ErrPct: 20, SkipPct: 8, RetryPct: 20, Modes: []string{"max", "max", "max", "serial"}, CancelPct: 25, ReAdd: 1, TwoObjPct: 30})
+		}
 		return genDagCase(t, dagCfg{MaxN: 7, Density: []int{20, 40, 70}, ErrPct: 4, SkipPct: 3, RetryPct: 15, Modes: allModes, CancelPct: 8, ReAdd: 3, DupPct: 8, CyclePct: 10, TwoObjPct: 30})
 	},
 	NT: func(c *DagCase, r *Result) bool {
